@@ -35,7 +35,11 @@ WORLDS = {
 PREFIX = {"x4vv": [("view", "v", "x", "all"), ("view", "vv", "v", "all")]}
 WORLDS["x4vv"] = [("x", (4,), 0, False), ("y", (3,), 5, False)]
 CFG_VV = dict(CFG, views=("s1",), ops1=("mul2",), set_idx=("s1",), iops=("iadd",), outs=(), leaf_backward=True)
-BOUNDS = {"quick": [("x4", 3, 1), ("x23", 2, 1), ("x4ro", 3, 1), ("x4vv", 3, 1)], "thorough": [("x4", 3, 2), ("x23", 3, 1), ("x4", 4, 1), ("x4ro", 4, 1), ("x4vv", 4, 1)]}
+# an op that consumes two members of one view family exists before the failure (a rollback has several placeholders to swap back in it)
+PREFIX["x4fam"] = [("view", "v", "x", "rev"), ("op2", "w", ("t", "x"), ("t", "v"), "mul"), ("op2", "u", ("t", "v"), ("t", "v"), "cat")]
+WORLDS["x4fam"] = [("x", (4,), 0, False), ("y", (3,), 5, False)]
+BOUNDS = {"quick": [("x4", 3, 1), ("x23", 2, 1), ("x4ro", 3, 1), ("x4vv", 3, 1), ("x4fam", 2, 1)],
+          "thorough": [("x4", 3, 2), ("x23", 3, 1), ("x4", 4, 1), ("x4ro", 4, 1), ("x4vv", 4, 1), ("x4fam", 3, 1)]}
 
 FAULTS = {
     # name -> (code, callable(impl, t), applicable(shape))
@@ -49,6 +53,11 @@ FAULTS = {
     "f_out": ("mg.multiply({0}, np.zeros(7), out={0})", lambda im, t: im.mg.multiply(t, np.zeros(7), out=t), lambda s: True),
     "f_outdtype": ("mg.add({0}, 1.0, out={0}, dtype=np.int32)", lambda im, t: im.mg.add(t, 1.0, out=t, dtype=np.int32), lambda s: True),
     "f_clip_out": ("mg.clip({0}, 1.0, np.ones(7), out={0})", lambda im, t: im.mg.clip(t, 1.0, np.ones(7), out=t), lambda s: True),
+    # an operand that cannot become a tensor, placed *after* a valid one (the valid one has been seen / locked by then)
+    "f_badoperand": ("{0} + 'a'", lambda im, t: t + "a", lambda s: True),
+    "f_badoperand_fn": ("mg.multiply({0}, 1j)", lambda im, t: im.mg.multiply(t, 1j), lambda s: True),
+    "f_badoperand3": ("mg.add_sequence({0}, {0}, 'a')", lambda im, t: im.mg.add_sequence(t, t, "a"), lambda s: True),
+    "f_badoperand_w": ("mg.where({0} > 0, {0}, object())", lambda im, t: im.mg.where(t.data > 0, t, object()), lambda s: True),
     "f_intconst": ("mg.add(mg.tensor([1]), mg.tensor([2]), constant=False)  # rejected after its forward pass",
                    lambda im, t: im.mg.add(im.ints[0], im.ints[1], constant=False), lambda s: True),
 }
@@ -80,19 +89,23 @@ def observe(impl):
         # a view of a read-only array cannot be made writeable again (NumPy refuses): its flag is only
         # comparable while its owner is writeable
         wflag = bool(d.flags.writeable) if (u is d or u.flags.writeable) else None
+        # the creator's inputs, by slot name (a rollback that leaves an op wired to an internal placeholder shows up here)
+        cin = None
+        if t._creator is not None:
+            cin = tuple(next((k for k in names if impl.t[k] is v), "<internal>") for v in t._creator.variables)
         out.append((n, t.data.shape, t.data.tobytes(), t.constant, bname, wflag,
-                    type(t._creator).__name__, sum(1 for r in t._ops if r() is not None)))
+                    type(t._creator).__name__, sum(1 for r in t._ops if r() is not None), cin))
     sh = tuple(np.shares_memory(impl.t[a].data, impl.t[b].data) for i, a in enumerate(names) for b in names[i + 1:])
     for k, t in enumerate(getattr(impl, "ints", ())):
         out.append(("<int tensor %d>" % k, t.data.shape, t.data.tobytes(), t.constant, None, bool(t.data.flags.writeable), type(t._creator).__name__,
-                    sum(1 for r in t._ops if r() is not None)))
+                    sum(1 for r in t._ops if r() is not None), None))
     return (tuple(out), sh)
 
 
 def diff(a, b):
     for x, y in zip(a[0], b[0]):
         if x != y:
-            fields = ("name", "shape", "data", "constant", "base", "writeable", "creator", "live consumers")
+            fields = ("name", "shape", "data", "constant", "base", "writeable", "creator", "live consumers", "creator inputs")
             for f, u, v in zip(fields, x, y):
                 if u != v:
                     if f == "data":
@@ -242,7 +255,7 @@ def enabled(m, cfg, out, nb):
 
 
 def cfg_of(wname):
-    return CFG_RO if wname == "x4ro" else (CFG_VV if wname == "x4vv" else CFG)
+    return CFG_RO if wname == "x4ro" else (CFG_VV if wname in ("x4vv", "x4fam") else CFG)
 
 
 def run_task(task):
